@@ -152,7 +152,7 @@ def envs(ctx, shard, nshards):
     if r.out.strip() != b"2012-03-01T00:00:00":
         sub.inconclusive.append("fake clock not effective: %r %r" % (r.out, r.err[:200]))
         return sub
-    for it in range(60 if not ctx.thorough else 2500):
+    for it in range(500 if not ctx.thorough else 5000):
         tool, args, stdin, exp, tag = gen_invocation(rnd, B)
         base = run(ctx, tool, args, stdin, BASE_ENV)
         sub.evaluations += 1
@@ -199,7 +199,7 @@ def locales(ctx, shard, nshards):
     locs = [l for l in LF.load(ctx.build.locale_file("prod")) if LF.eligible(l)]
     B = boundary()
     env0 = BASE_ENV
-    for it in range(25 if not ctx.thorough else 1700):
+    for it in range(250 if not ctx.thorough else 3000):
         A, Bl = rnd.choice(locs), rnd.choice(locs)
         n = rnd.choice(B) if rnd.random() < 0.3 else rnd.randrange(R.NMIN + 800, 900000)
         n = max(R.NMIN + 800, min(900000, n))
